@@ -15,9 +15,10 @@ type FaultPre struct {
 }
 
 type FaultCase struct {
-	Name string
-	Op   m.Op
-	Read bool
+	Name    string
+	Op      m.Op
+	Read    bool
+	OnlyPre string // restrict to one pre-state (expensive operations)
 }
 
 // FaultEnum: for every (backend, pre-state, operation): count the store calls of the kinds C04 names, then for
@@ -32,6 +33,9 @@ func FaultEnum(run *ev.Run, backends []string, pres []FaultPre, cases []FaultCas
 	for _, b := range backends {
 		for _, p := range pres {
 			for _, c := range cases {
+				if c.OnlyPre != "" && c.OnlyPre != p.Name {
+					continue
+				}
 				tasks = append(tasks, task{b, p, c})
 			}
 		}
@@ -97,7 +101,14 @@ func FaultEnum(run *ev.Run, backends []string, pres []FaultPre, cases []FaultCas
 			}
 		}
 		run.Add("operations_enumerated", 1)
+		thin := nf > 300
+		if thin {
+			run.Add("operations_with_thinned_fault_positions", 1)
+		}
 		for k := 0; k < nf; k++ {
+			if thin && k >= 40 && k < nf-40 && k%53 != 0 {
+				continue // operations making hundreds of store calls: first 40, last 40 and every 53rd position
+			}
 			if _, err := in.Fresh(snap); err != nil {
 				panic(err)
 			}
